@@ -1,6 +1,374 @@
 package main
 
-// replayOnRealCode: instantiate the model as an in-package Go test (overlay) and run the real code.
+// Replay of a solver counterexample on the real code.
+//
+// A replay template /verif/replay/<unit key>.go.tmpl is an in-package Go test with placeholders. Its header declares
+// probes — contract-language expressions evaluated in the ENTRY state of the failed obligation's unit:
+//
+//     //govc:probe NAME KIND EXPR        KIND = int | bool | string | bytes
+//
+// The failed query is re-solved (z3) with the probes' lengths bounded, the values are read with get-value, the
+// placeholders {{NAME}} are replaced by Go literals and {{OBLIGATION}} by the obligation name, and the test is run
+// against /repo through `go test -overlay` (nothing is written to /repo). The test prints
+// "GOVC-REPLAY: CONFIRMED ..." when it observes the violation on the real code.
+
+import (
+	"bytes"
+	"context"
+	"encoding/json"
+	"fmt"
+	"os"
+	"os/exec"
+	"path/filepath"
+	"regexp"
+	"strconv"
+	"strings"
+	"time"
+)
+
+type probe struct {
+	Name string
+	Kind string
+	Expr *Expr
+	Text string
+}
+
+var pendingReplays = map[string]*Obligation{} // replay path → obligation (same process)
+
+func templatePath(cfg *Config, unitKey string) string {
+	return filepath.Join(cfg.Verif, "replay", unitKey+".go.tmpl")
+}
+
+func parseTemplate(path string) ([]probe, string, error) {
+	data, err := os.ReadFile(path)
+	if err != nil {
+		return nil, "", err
+	}
+	var probes []probe
+	for _, line := range strings.Split(string(data), "\n") {
+		t := strings.TrimSpace(line)
+		if !strings.HasPrefix(t, "//govc:probe ") {
+			continue
+		}
+		f := strings.Fields(t[len("//govc:probe "):])
+		if len(f) < 3 {
+			return nil, "", fmt.Errorf("bad probe line %q", t)
+		}
+		txt := strings.Join(f[2:], " ")
+		e, err := ParseExpr(txt)
+		if err != nil {
+			return nil, "", fmt.Errorf("probe %s: %v", f[0], err)
+		}
+		probes = append(probes, probe{Name: f[0], Kind: f[1], Expr: e, Text: txt})
+	}
+	return probes, string(data), nil
+}
+
+func runZ3Values(text string, timeoutS int) (string, string) {
+	file := filepath.Join(outDir, "smt", fmt.Sprintf("replay%d.smt2", time.Now().UnixNano()))
+	os.MkdirAll(filepath.Dir(file), 0o755)
+	os.WriteFile(file, []byte(text), 0o644)
+	defer os.Remove(file)
+	ctx, cancel := context.WithTimeout(context.Background(), time.Duration(timeoutS+2)*time.Second)
+	defer cancel()
+	cmd := exec.CommandContext(ctx, "z3-new", "-T:"+strconv.Itoa(timeoutS), file)
+	var buf bytes.Buffer
+	cmd.Stdout = &buf
+	cmd.Stderr = &buf
+	cmd.Run()
+	out := buf.String()
+	first := strings.TrimSpace(out)
+	rest := ""
+	if i := strings.IndexByte(first, '\n'); i >= 0 {
+		rest = first[i+1:]
+		first = strings.TrimSpace(first[:i])
+	}
+	return first, rest
+}
+
+// parseGetValue parses "((e1 v1) (e2 v2) ...)" into values in order
+func parseGetValue(out string) []string {
+	toks := tokenizeSexp(out)
+	pos := 0
+	var parse func() interface{}
+	parse = func() interface{} {
+		if pos >= len(toks) {
+			return nil
+		}
+		t := toks[pos]
+		pos++
+		if t == "(" {
+			var list []interface{}
+			for pos < len(toks) && toks[pos] != ")" {
+				list = append(list, parse())
+			}
+			pos++
+			return list
+		}
+		return t
+	}
+	var vals []string
+	for pos < len(toks) {
+		e := parse()
+		l, ok := e.([]interface{})
+		if !ok {
+			continue
+		}
+		for _, pair := range l {
+			pl, ok := pair.([]interface{})
+			if ok && len(pl) == 2 {
+				vals = append(vals, sexpString(pl[1]))
+			}
+		}
+	}
+	return vals
+}
+
+func smtIntValue(s string) (int64, bool) {
+	s = strings.TrimSpace(s)
+	if strings.HasPrefix(s, "(- ") {
+		n, err := strconv.ParseInt(strings.TrimSuffix(s[3:], ")"), 10, 64)
+		return -n, err == nil
+	}
+	n, err := strconv.ParseInt(s, 10, 64)
+	return n, err == nil
+}
+
 func replayOnRealCode(cfg *Config, ld *Loaded, replayPath string) bool {
+	o := pendingReplays[replayPath]
+	if o == nil {
+		return false
+	}
+	unitKey := o.Unit.key
+	tp := templatePath(cfg, unitKey)
+	probes, tmpl, err := parseTemplate(tp)
+	if err != nil {
+		noteReplay(replayPath, "no replay template for "+unitKey)
+		return false
+	}
+	eng := o.Unit.eng
+	// evaluate the probes in the entry state
+	st := &State{u: o.Unit, cellVal: map[*Cell]Value{}, heap: map[string]Term{}, pcSet: map[string]bool{}, written: map[string]bool{}, fresh: map[string]bool{}}
+	for k, v := range o.EntryHeap {
+		st.heap[k] = v
+	}
+	st.alloc = eng.constNamed("alloc!0", SInt)
+	fr := &Frame{fn: o.Unit.fn, regs: nil, params: o.Entry, spec: o.Unit.spec}
+	type pv struct {
+		p     probe
+		v     Value
+		lenTm Term
+	}
+	var pvs []pv
+	var evalErr error
+	func() {
+		defer func() {
+			if r := recover(); r != nil {
+				evalErr = fmt.Errorf("%v", r)
+			}
+		}()
+		for _, p := range probes {
+			env := st.newEnv(fr, nil)
+			env.post = true
+			env.old = st
+			v := env.eval(p.Expr)
+			x := pv{p: p, v: v}
+			switch p.Kind {
+			case "string":
+				x.lenTm = StrLen(v.Tm)
+			case "bytes":
+				x.lenTm = SlLen(v.Tm)
+			}
+			pvs = append(pvs, x)
+		}
+	}()
+	if evalErr != nil {
+		noteReplay(replayPath, "probe evaluation failed: "+evalErr.Error())
+		return false
+	}
+	q := &Query{Name: o.Name, Decls: eng.decls, Asserts: append(append([]Term{}, o.Asserts...), st.pcSlice()...), Goal: o.Goal}
+	base := q.text(false, true, false)
+	base = strings.Replace(base, "(get-model)\n", "", 1)
+	base = strings.Replace(base, "(check-sat)\n", "", 1)
+	// the probe terms may use symbols declared after the query text was built: rebuild with them mentioned
+	var extra strings.Builder
+	used := map[string]bool{}
+	for _, x := range pvs {
+		symbolsOf(x.v.Tm.S, used)
+	}
+	have := map[string]bool{}
+	symbolsOf(base, have)
+	for _, d := range eng.decls {
+		if used[d.Name] && !strings.Contains(base, d.Text) {
+			extra.WriteString(d.Text + "\n")
+		}
+	}
+	var scal []string
+	for _, bound := range []int{64, 2048, 1 << 20} {
+		var sb strings.Builder
+		// declarations first
+		idx := strings.Index(base, "(assert ")
+		if idx < 0 {
+			idx = len(base)
+		}
+		sb.WriteString(base[:idx])
+		sb.WriteString(extra.String())
+		sb.WriteString(base[idx:])
+		for _, x := range pvs {
+			if !x.lenTm.IsZero() {
+				fmt.Fprintf(&sb, "(assert (<= %s %d))\n", x.lenTm.S, bound)
+			}
+		}
+		sb.WriteString("(check-sat)\n(get-value (")
+		for _, x := range pvs {
+			switch x.p.Kind {
+			case "int", "bool":
+				sb.WriteString(x.v.Tm.S + " ")
+			default:
+				sb.WriteString(x.lenTm.S + " ")
+			}
+		}
+		sb.WriteString("))\n")
+		status, rest := runZ3Values(sb.String(), 20)
+		if status != "sat" {
+			continue
+		}
+		scal = parseGetValue(rest)
+		if len(scal) != len(pvs) {
+			scal = nil
+			continue
+		}
+		// second run: bytes
+		var sb2 strings.Builder
+		sb2.WriteString(sb.String()[:strings.LastIndex(sb.String(), "(check-sat)")])
+		var reqs []struct{ pi, n int }
+		for i, x := range pvs {
+			if x.lenTm.IsZero() {
+				fmt.Fprintf(&sb2, "(assert (= %s %s))\n", x.v.Tm.S, scal[i])
+				continue
+			}
+			n, _ := smtIntValue(scal[i])
+			fmt.Fprintf(&sb2, "(assert (= %s %d))\n", x.lenTm.S, n)
+			reqs = append(reqs, struct{ pi, n int }{i, int(n)})
+		}
+		sb2.WriteString("(check-sat)\n(get-value (")
+		total := 0
+		for _, r := range reqs {
+			x := pvs[r.pi]
+			for k := 0; k < r.n; k++ {
+				var t Term
+				if x.p.Kind == "string" {
+					t = Select(StrArr(x.v.Tm), Ix(StrOff(x.v.Tm), IntLit(int64(k))))
+				} else {
+					name, sort := eng.memName(elemOf(x.v.T))
+					t = Select(Select(st.heapGet(name, sort), SlRef(x.v.Tm)), Ix(SlOff(x.v.Tm), IntLit(int64(k))))
+				}
+				sb2.WriteString(t.S + " ")
+				total++
+			}
+		}
+		sb2.WriteString("0))\n")
+		status2, rest2 := runZ3Values(sb2.String(), 30)
+		if status2 != "sat" {
+			scal = nil
+			continue
+		}
+		bvals := parseGetValue(rest2)
+		// render
+		vals := map[string]string{}
+		bi := 0
+		for i, x := range pvs {
+			switch x.p.Kind {
+			case "int":
+				n, _ := smtIntValue(scal[i])
+				vals[x.p.Name] = strconv.FormatInt(n, 10)
+			case "bool":
+				vals[x.p.Name] = scal[i]
+			default:
+				n, _ := smtIntValue(scal[i])
+				bs := make([]byte, n)
+				for k := 0; k < int(n); k++ {
+					if bi < len(bvals) {
+						v, _ := smtIntValue(bvals[bi])
+						bs[k] = byte(v)
+					}
+					bi++
+				}
+				if x.p.Kind == "string" {
+					vals[x.p.Name] = strconv.Quote(string(bs))
+				} else {
+					vals[x.p.Name] = "[]byte(" + strconv.Quote(string(bs)) + ")"
+				}
+			}
+		}
+		return runReplayTest(cfg, ld, o, replayPath, tmpl, vals)
+	}
+	noteReplay(replayPath, "no model under the replay size bounds")
 	return false
+}
+
+var placeholderRe = regexp.MustCompile(`\{\{([A-Za-z_0-9]+)\}\}`)
+
+func runReplayTest(cfg *Config, ld *Loaded, o *Obligation, replayPath, tmpl string, vals map[string]string) bool {
+	vals["OBLIGATION"] = strconv.Quote(o.Unit.key + "/" + o.Name)
+	src := placeholderRe.ReplaceAllStringFunc(tmpl, func(m string) string {
+		k := m[2 : len(m)-2]
+		if v, ok := vals[k]; ok {
+			return v
+		}
+		return m
+	})
+	dir := filepath.Join(outDir, "replay")
+	os.MkdirAll(dir, 0o755)
+	base := sanitize(filepath.Base(replayPath))
+	testFile := filepath.Join(dir, base+"_test.go")
+	os.WriteFile(testFile, []byte(src), 0o644)
+	pkgDir := filepath.Dir(ld.fset.Position(o.Unit.fn.Pos()).Filename)
+	ov := map[string]interface{}{"Replace": map[string]string{filepath.Join(pkgDir, "zz_govc_replay_test.go"): testFile}}
+	ovData, _ := json.Marshal(ov)
+	ovFile := filepath.Join(dir, base+"_overlay.json")
+	os.WriteFile(ovFile, ovData, 0o644)
+	ctx, cancel := context.WithTimeout(context.Background(), 180*time.Second)
+	defer cancel()
+	cmd := exec.CommandContext(ctx, "go", "test", "-overlay", ovFile, "-vet=off", "-count=1", "-timeout", "60s", "-v", "-run", "^TestGovcReplay$", ".")
+	cmd.Dir = pkgDir
+	cmd.Env = append(os.Environ(), "GOFLAGS=-mod=mod", "GOPROXY=off", "GOSUMDB=off", "GOTOOLCHAIN=local", "LOG_LEVEL=fatal")
+	var buf bytes.Buffer
+	cmd.Stdout = &buf
+	cmd.Stderr = &buf
+	cmd.Run()
+	out := buf.String()
+	confirmed := strings.Contains(out, "GOVC-REPLAY: CONFIRMED")
+	res := "not reproduced"
+	if confirmed {
+		res = "CONFIRMED on the real code"
+	}
+	var inputs []string
+	for k, v := range vals {
+		inputs = append(inputs, k+"="+trunc(v, 300))
+	}
+	noteReplay(replayPath, fmt.Sprintf("%s; inputs: %s; test: %s; output: %s", res, strings.Join(inputs, " "), testFile, trunc(lastLines(out, 12), 1500)))
+	return confirmed
+}
+
+func lastLines(s string, n int) string {
+	lines := strings.Split(strings.TrimSpace(s), "\n")
+	if len(lines) > n {
+		lines = lines[len(lines)-n:]
+	}
+	return strings.Join(lines, "\n")
+}
+
+func noteReplay(path string, msg string) {
+	data, err := os.ReadFile(path)
+	if err != nil {
+		return
+	}
+	var rf ReplayFile
+	if json.Unmarshal(data, &rf) != nil {
+		return
+	}
+	rf.Replay = msg
+	out, _ := json.MarshalIndent(rf, "", " ")
+	os.WriteFile(path, out, 0o644)
 }
